@@ -124,6 +124,23 @@ class _Repr:
     __repr__ = __str__
 
 
+class _Relog:
+    """an argument that is rendered lazily and logs through the context while it is being rendered (once)"""
+
+    def __init__(self, token: str) -> None:
+        self.token, self.done = token, False
+
+    def __str__(self) -> str:
+        if not self.done:
+            self.done = True
+            from haiway import ctx
+
+            ctx.log_warning(f"<{self.token}> logged while an argument was rendered")
+        return "rendered"
+
+    __repr__ = __str__
+
+
 class LogCapture(logging.Handler):
     def __init__(self) -> None:
         super().__init__(level=logging.DEBUG)
@@ -132,6 +149,10 @@ class LogCapture(logging.Handler):
 
     def emit(self, record: logging.LogRecord) -> None:
         self.records.append(record)
+        try:
+            record.getMessage()  # a handler renders the message while emitting: arguments are turned into text here and now
+        except Exception:  # noqa: BLE001 - format / argument mismatch: real handlers report it through handleError
+            self.format_errors += 1
 
 
 class Disposable:
@@ -316,6 +337,8 @@ class World:
     def log_arg(a: Any) -> Any:
         if isinstance(a, list) and a and a[0] == "obj":
             return _Repr(a[1])
+        if isinstance(a, list) and a and a[0] == "relog":
+            return _Relog(a[1])
         return a
 
     def resolve_option(self, opt: str, value: Any) -> Any:
